@@ -5,7 +5,7 @@
  *   g_cap    size of the inline area = 60 bytes of i_block + length of the "system.data" xattr value
  *            (what ext2fs_inline_data_get reports; always >= 60)
  *   verif_k  one arbitrary byte position, g_byte = area[verif_k] (meaningful while verif_k < g_cap)
- *   g_free   free in-inode xattr space (how far "system.data" may grow), arbitrary
+ *   g_free   free in-inode xattr space (how far "system.data" may grow), arbitrary with g_cap + g_free <= blocksize
  * Behaviour of the stubs = behaviour of inline_data.c:
  *   get(buf,&size): buf[0..g_cap) = area, size = g_cap
  *   set(buf,size):  size > 60 and size != g_cap and size > g_cap + g_free -> EXT2_ET_INLINE_DATA_NO_SPACE, nothing stored;
@@ -94,21 +94,40 @@ errcode_t ext2fs_read_inode(ext2_filsys fs, ext2_ino_t ino, struct ext2_inode *i
 }
 
 /*
- * libc memcpy as seen by the two functions (the built-in byte-array model with a symbolic length and a symbolic
- * offset does not get through propositional reduction): source readable / destination writable for n bytes are
- * ASSERTED at every call — this is the "every memcpy stays inside file->buf" obligation — and the copy is faithful at
- * ONE ghost index verif_mc_k (= verif_k - pos on entry: the byte that lands on / comes from area position verif_k;
- * true of memcpy for every index); the other copied bytes are unconstrained (worst case), bytes outside [0,n) are kept.
+ * libc memcpy as seen by the two functions.  CBMC's built-in byte-array model (and __CPROVER_havoc_slice in a replaced
+ * contract) with a symbolic length and a symbolic offset does not get through the back end, so memcpy is modelled here:
+ *   - source readable / destination writable for n bytes are ASSERTED at every call: this is the obligation
+ *     "every memcpy stays inside file->buf" (and inside the caller's buffer); execution stops after a violation;
+ *   - the copy is faithful at ONE ghost index verif_mc_k (= verif_k - pos on entry, the byte that lands on / comes
+ *     from area position verif_k; true of memcpy for every index);
+ *   - every other byte of the destination OBJECT becomes unconstrained (over-approximation), except the tracked byte
+ *     *verif_keep (= &file->buf[verif_k]) when it lies outside [dst, dst+n): memcpy does not touch it.
  */
 unsigned long long verif_mc_k;
+unsigned char *verif_keep;	/* = &file->buf[verif_k] */
 void *memcpy(void *dst, const void *src, size_t n)
-	REQUIRES(__CPROVER_r_ok(src, n) && __CPROVER_w_ok(dst, n))
-	ASSIGNS(__CPROVER_object_upto(dst, n))
-	ENSURES(RET == dst)
-	ENSURES(verif_mc_k >= n || ((const unsigned char *)dst)[verif_mc_k] == ((const unsigned char *)src)[verif_mc_k]);
+{
+	__CPROVER_assert(__CPROVER_r_ok(src, n), "CHECK:memcpy source readable");
+	__CPROVER_assert(__CPROVER_w_ok(dst, n), "CHECK:memcpy destination writable");
+	__CPROVER_assume(__CPROVER_r_ok(src, n) && __CPROVER_w_ok(dst, n));
+	if (n > 0) {
+		unsigned char v = verif_mc_k < n ? ((const unsigned char *)src)[verif_mc_k] : 0;
+		/* whole destination object unconstrained, except the tracked byte when it lies outside [dst, dst+n) */
+		int keep = __CPROVER_same_object(verif_keep, dst) &&
+			!(__CPROVER_POINTER_OFFSET(verif_keep) >= __CPROVER_POINTER_OFFSET(dst) &&
+			  (unsigned long long)(__CPROVER_POINTER_OFFSET(verif_keep) - __CPROVER_POINTER_OFFSET(dst)) < n);
+		unsigned char kv = keep ? *verif_keep : 0;
+		__CPROVER_havoc_object(dst);
+		if (keep)
+			*verif_keep = kv;
+		if (verif_mc_k < n)
+			((unsigned char *)dst)[verif_mc_k] = v;
+	}
+	return dst;
+}
 
 #define ISIZE(file) EXT2_I_SIZE(&(file)->inode)
-#define WELL_FORMED(file) (g_cap >= EXT4_MIN_INLINE_DATA_SIZE && g_cap <= CAP_MAX && ISIZE(file) <= g_cap && \
+#define WELL_FORMED(file) (g_cap >= EXT4_MIN_INLINE_DATA_SIZE && g_cap + g_free <= CAP_MAX && ISIZE(file) <= g_cap && \
 	verif_k < CAP_MAX && (!(verif_k >= ISIZE(file) && verif_k < g_cap) || g_byte == 0))
 #define OLDS_TIED(file) (g_pos0 == (file)->pos && g_isize0 == ISIZE(file) && g_cap0 == g_cap && g_byte0 == g_byte && \
 	verif_mc_k == verif_k - (file)->pos && g_choice == 0 && g_expanded == 0 && g_set_calls == 0 && g_setsize_calls == 0)
